@@ -199,7 +199,7 @@ def uniform_finite(S):
             bounds='bounds (lb,+inf), (-inf,ub), (-inf,+inf) with the finite bound symbolic; one evaluation point')
 def uniform_half_infinite(S):
     _setup(S)
-    b, p = S.real('b'), S.real('p')
+    b, p, x = S.real('b'), S.real('p'), S.real('x')
     inf = float('inf')
     for tag, lo, hi in (('lower', b, inf), ('upper', -inf, b), ('both', -inf, inf)):
         u, raised = _ctor(lambda: Uniform(lo, hi))
@@ -225,6 +225,9 @@ def uniform_half_infinite(S):
         if not core._is_inf(lp):
             S.claim(tag + '.improper_lnprob_finite', not core._is_inf(lp))
         S.claim(tag + '.scale_factor_positive', u.scale_factor > 0)
+        S.claim(tag + '.scale_factor_finite', not core._is_inf(u.scale_factor))
+        if not core._is_inf(u.scale_factor):
+            S.claim_eq(tag + '.unscale_scale', u.unscale(u.scale(x)), x)
     # infinite bounds on the wrong side are rejected
     for lo, hi in ((inf, b), (b, -inf), (inf, inf)):
         _, raised = _ctor(lambda: Uniform(lo, hi))
@@ -492,6 +495,11 @@ def _expressions(S, a, b, c):
         ('sqrt(c)*(a-3)', np.sqrt(c) * (a - 3), lambda A, B, C: np.sqrt(C) * (A + -3)),
         ('a+a', a + a, lambda A, B, C: A + A),
         ('add(a,b)', np.add(a, b), lambda A, B, C: A + B),
+        # ufuncs whose first operand is a plain number: the operand order is part of the derived prior
+        ('subtract(3,a)', np.subtract(3, a), lambda A, B, C: 3 - A),
+        ('divide(2,c)', np.divide(2, c), lambda A, B, C: 2 / C),
+        ('subtract(a,b)', np.subtract(a, b), lambda A, B, C: A - B),
+        ('float64(5)-a', np.float64(5) - a, lambda A, B, C: 5 - A),
     ]
 
 
@@ -502,7 +510,7 @@ ARF = [PR + 'Prior.__add__', PR + 'Prior.__mul__', PR + 'Prior.__sub__', PR + 'P
 
 
 @obligation('C14.arith.guess', functions=ARF,
-            bounds='16 operator expressions of depth <= 3 over Uniform/Gaussian/Uniform bases with symbolic '
+            bounds='20 operator expressions of depth <= 3 over Uniform/Gaussian/Uniform bases with symbolic '
                    'parameters; guess of the derived prior = expression of the base guesses')
 def arith_guess(S):
     _setup(S)
@@ -564,19 +572,19 @@ def _arith_sample(S, size):
 
 
 @obligation('C14.arith.sample_none', functions=ARF, stubs=['numpy.random.* (contract stub)'],
-            bounds='16 operator expressions, sample(size=None): derived sample = expression of the base draws')
+            bounds='20 operator expressions, sample(size=None): derived sample = expression of the base draws')
 def arith_sample_none(S):
     _arith_sample(S, None)
 
 
 @obligation('C14.arith.sample_2', functions=ARF, stubs=['numpy.random.* (contract stub)'],
-            bounds='16 operator expressions, sample(size=2): elementwise')
+            bounds='20 operator expressions, sample(size=2): elementwise')
 def arith_sample_2(S):
     _arith_sample(S, 2)
 
 
 @obligation('C14.arith.sample_1', functions=ARF, stubs=['numpy.random.* (contract stub)'], tier='thorough',
-            bounds='16 operator expressions, sample(size=1)')
+            bounds='20 operator expressions, sample(size=1)')
 def arith_sample_1(S):
     _arith_sample(S, 1)
 
